@@ -27,11 +27,14 @@ First2 == CHOOSE pr \in Names \X Names : pr[1] # pr[2]   \* the pair used for th
 \* value collisions on purpose: an assigned value may equal the loop variable's first value (7), a counter's value (1),
 \* the include argument ("i") or the caller datum ("d") - a binding must win by position, never by comparing values
 InclSame(n) == [t |-> "include", name |-> Lit(StrV("p")), args |-> <<[k |-> n, x |-> Lit(StrV("s"))]>>]
+\* an argument that passes a name on under the same name still binds it in the partial's frame
+InclVar(n, m) == [t |-> "include", name |-> Lit(StrV("p")), args |-> <<[k |-> n, x |-> V(m)]>>]
 Leaves ==
   {Read(n) : n \in Names} \cup {Assign_(n, Lit(StrV("s"))) : n \in Names} \cup
   {Assign_(First2[1], V(First2[2]))} \cup
   {Assign_(First2[1], Lit(IntV(7))), Assign_(First2[1], Lit(IntV(1))), Assign_(First2[2], Lit(StrV("d"))), Assign_(First2[1], Lit(StrV("i")))} \cup
-  {Inc(n) : n \in Names} \cup {Dec(First2[1])} \cup {Incl(n) : n \in Names} \cup {InclSame(First2[1])}
+  {Inc(n) : n \in Names} \cup {Dec(First2[1])} \cup {Incl(n) : n \in Names} \cup {InclSame(First2[1])} \cup
+  {InclVar(First2[1], First2[1]), InclVar(First2[2], First2[1])}
 
 Compound(body) ==
   {For_(n, body) : n \in Names} \cup {Capture_(n, body) : n \in Names} \cup {IfT(First2[1], body)}
@@ -52,7 +55,7 @@ Programs == UNION {Blocks(n, MaxDepth) : n \in 0..MaxNodes}
 \* the included partial: reads every name, rebinds one, bumps a counter
 PartVariants ==
   { [p |-> [ok |-> TRUE, body |-> <<Read(First2[1]), Read(First2[2]),
-                                     Assign_(First2[1], Lit(StrV("q")))>>]],
+                                     Assign_(First2[1], Lit(StrV("q"))), Read(First2[1])>>]],
     [p |-> [ok |-> TRUE, body |-> <<Inc(First2[1]), Read(First2[1]),
                                      Capture_(First2[2], <<Txt("c"), Read(First2[2])>>)>>]] }
 
